@@ -400,6 +400,10 @@ class Site:
         self.guarded = None    # on the failing path some condition relates the index / bound to the slice it indexes
 
 
+_UNREAD_COMBINATORS = ('and_then', 'map', 'map_or', 'map_or_else', 'filter', 'then', 'then_some', 'or_else', 'unwrap_or_else', 'zip', 'position', 'find', 'take_while',
+                       'skip_while', 'fold', 'count', 'split_at', 'split_first', 'split_last', 'strip_prefix', 'strip_suffix', 'starts_with', 'ends_with', 'all', 'any',
+                       'is_some_and', 'is_none_or', 'checked_sub', 'checked_mul', 'saturating_mul')
+
 TRANSPARENT_CALLS = ('branch', 'from_residual', 'into', 'from', 'deref', 'deref_mut', 'as_ref', 'as_mut', 'as_bytes', 'as_slice', 'as_str',
                      'borrow', 'clone', 'index', 'index_mut', 'len', 'is_empty', 'min', 'max', 'unwrap', 'expect', 'unwrap_or', 'ok_or', 'map_err',
                      'try_into', 'try_from', 'get', 'get_mut', 'saturating_sub', 'saturating_add', 'checked_add', 'checked_sub', 'to_vec',
@@ -472,6 +476,7 @@ class Inventory:
         self._lemmas = {}
         self._invs = {}
         self._opaque_cur = {}   # fn -> {(cursor local, loop head): why its bound could not be established}
+        self._lemma_unknown = {}   # fn -> construct that kept its cursor postcondition from being derived
 
     def region_paths(self, body):
         key = body.path
@@ -494,7 +499,12 @@ class Inventory:
             return False
         sl = [i for i in range(1, b.argc + 1) if b.local_ty(i).get('k') == 'ref' and b.local_ty(i)['inner'].get('s') == '[u8]']
         cu = [i for i in range(1, b.argc + 1) if b.local_ty(i).get('k') == 'ref' and b.local_ty(i).get('mut') and b.local_ty(i)['inner'].get('s') == 'usize']
-        return len(sl) == 1 and len(cu) == 1 and b.local_ty(0).get('s') == 'bool' and not natural_loops(b)
+        if not (len(sl) == 1 and len(cu) == 1 and b.local_ty(0).get('s') == 'bool' and not natural_loops(b)):
+            return False
+        # a function of that shape whose postcondition could not be derived *because it decides with constructs the provers do not read*
+        # (combinators with closures, helpers) is not analysed: the state after calling it is unknown, not refuted
+        self.cursor_lemma(fn)
+        return fn not in self._lemma_unknown
 
     # ---- callee lemma: F(.., slice S, .., &mut usize I, ..) -> bool ; returns true  =>  *I' <= len(S)
     def cursor_lemma(self, fn):
@@ -534,6 +544,16 @@ class Inventory:
                 endv = ('deref', ('init', I, b.name_of(I)))
             if not K.le(endv, ('len', ('init', S, b.name_of(S)))) or not K.le(('deref', ('init', I, b.name_of(I))), endv):
                 ok = False
+                unread = None
+                for t_ in [c[0] for c in q.conds] + [endv]:
+                    for x_ in subterms(t_):
+                        if x_[0] == 'call' and isinstance(x_[1], str):
+                            last_ = canon(x_[1]).split('::')[-1]
+                            if last_ in _UNREAD_COMBINATORS or any(isinstance(a_, tuple) and a_ and a_[0] == 'agg' and isinstance(a_[1], tuple) and a_[1][0] == 'closure' for a_ in x_[2]) \
+                                    or (x_[1] in self.facts.bodies and not x_[1].endswith('read_u32')):
+                                unread = last_
+                if unread:
+                    self._lemma_unknown[fn] = f'{unread}()'
                 break
         self._lemmas[fn] = (S, I) if ok and any_true else None
         return self._lemmas[fn]
@@ -582,6 +602,11 @@ class Inventory:
                     t = norm(c[0])
                     if t[0] == 'bin' and t[1] in ('Lt', 'Ge') and t[2][0] == 'hav' and t[3][0] == 'len':
                         cands.add((t[2], t[3]))
+                    # `while let Some(&c) = buf.get(cur)`: the same loop test as `while cur < buf.len()`
+                    if t[0] == 'discr' and is_call(t[1], 'slice::get', '::get') and len(t[1][2]) == 2:
+                        ix = norm(t[1][2][1])
+                        if ix[0] == 'hav':
+                            cands.add((ix, norm(('len', base_of(t[1][2][0])))))
             good = []
             for (cur, ln) in cands:
                 l = cur[1]
@@ -631,6 +656,9 @@ class Inventory:
                     endv = q.store.get(('L', l), ('init', l, body.name_of(l)))
                     if not K.le(kconst, endv):
                         ok = False
+                        why = opaque_container(endv, body, self.lemma_applicable)
+                        if why:
+                            self._opaque_cur.setdefault(body.path, {}).setdefault((l, h), why)
                         break
                 if ok:
                     good.append((kconst, cur))
@@ -656,6 +684,8 @@ class Inventory:
             s.ok = False
             s.fail = why
             s.opaque = None
+            if why and 'whose length the element counter does not read' in str(why):
+                s.opaque = 'the size of a queue filled by a helper from an iterator adaptor'
             if why and 'more than one definition' in str(why):
                 s.opaque = 'a queue that is reassigned or returned by a helper, whose size the element counter does not track'
             for t in terms:
